@@ -582,7 +582,9 @@ def main():
                 now = time.time()
                 idle_s = cfg.get("idle_s", 45)
                 spun_now = w.cpu() - w.cpu_at_progress
-                if (now - w.last_progress > stall_s and spun_now > 0.5 * stall_s) or (now - w.last_progress > idle_s and spun_now < 0.05 * (now - w.last_progress) and w.open_idx is not None):
+                # budgets apply inside a run only; between runs (process start-up: storage pre-warming, slower under
+                # -race and on a loaded machine) only the generous wall-clock limit below applies
+                if w.open_idx is not None and ((now - w.last_progress > stall_s and spun_now > 0.5 * stall_s) or (now - w.last_progress > idle_s and spun_now < 0.05 * (now - w.last_progress))):
                     cpu = w.cpu()
                     spun = cpu - w.cpu_at_progress
                     if spun > 0.5 * stall_s:
@@ -608,7 +610,7 @@ def main():
                         w.start(nxt)
                     else:
                         w.done = True
-                elif now - w.last_progress > 4 * stall_s and w.open_idx is None:
+                elif now - w.last_progress > max(4 * stall_s, 900) and w.open_idx is None:
                     w.kill()
                     infra("worker %d stalled outside a run" % w.wid)
                 elif w.rss_mb() > cfg.get("rss_mb", 3000):
@@ -689,7 +691,7 @@ def main():
         add_cand(res, sc, race=(w.wid >= 100))
 
     reported = []
-    unattributed = []
+    unattributed = UNATTRIBUTED
     done_fps = set()
     for fp, (res, sc, race) in sorted(cands.items()):
         binp = RACE_BIN if race else BIN
@@ -705,10 +707,11 @@ def main():
                 log("note: fingerprint moved on confirmation: %s -> %s" % (fp, fp2))
                 fp = fp2
                 res = again
-            elif res.get("kind") == "runaway-handler" and "RSS" in (res.get("detail") or ""):
-                # the RSS of a worker is cumulative over its runs: a kill that does not reproduce alone is
-                # not attributable to this scenario (per-run heap growth is judged inside the worker)
-                log("note: RSS kill at idx=%s did not reproduce alone; not attributed" % res.get("idx"))
+            elif res.get("kind") == "runaway-handler":
+                # the RSS of a worker is cumulative over its runs, and CPU seconds per step inflate on a heavily
+                # loaded machine: a budget kill that does not reproduce alone in a fresh process is not a property
+                # of this scenario.  It is counted in the evidence, never reported, and is no infrastructure error.
+                log("note: budget kill (%s) at idx=%s did not reproduce alone; not attributed" % ((res.get("detail") or "")[:80], res.get("idx")))
                 unattributed.append(res)
                 continue
             else:
@@ -750,6 +753,8 @@ def main():
             log("  detail: " + (final.get("detail") or "")[:1200])
         sys.exit(1)
     sys.exit(0)
+
+UNATTRIBUTED = []
 
 def emit_scenario(prop, tier, base, idx, binpath, extra_env):
     d = tempfile.mkdtemp(prefix="htsim-emit-")
@@ -816,6 +821,7 @@ def write_evidence(prop, tier, seed, cfg, results, died, known, known_hits, repo
             "scenario_classes": classes,
             "components": cfg.get("components", {}),
             "workers_died_or_killed": len(died),
+            "budget_kills_not_reproduced": len(UNATTRIBUTED),
             "known_findings": [{"id": e["id"], "confirmed_by_replay": bool(e.get("_confirmed")), "matched_runs": known_hits.get(e["id"], 0)} for e in known],
             "violation_fingerprints": [{"kind": fp[0], "site": fp[1], "replay": rp} for fp, rp, _ in reported],
             "budget_exhausted": timed_out,
